@@ -817,9 +817,62 @@ def _c10_creators(acc, case):
                          "identical piece layers")
 
 
+def _cli_create(d, payload, version, pl_arg, progress):
+    """the same creation through the command line entry point; returns (meta, None) or (None, error)"""
+    import logging
+    import sys
+    from torrentfile.cli import execute
+    out = os.path.join(d, f"out_cli_{version}.torrent")
+    argv = ["create", payload, "--meta-version", str(version), "-o", out, "--prog", str(progress)]
+    if pl_arg is not None:
+        argv += ["--piece-length", str(pl_arg)]
+    err = None
+    try:
+        with quiet():
+            execute(argv)
+    except BaseException as e:      # noqa: BLE001
+        err = ("create-raised:" + type(e).__name__, f"{type(e).__name__}: {e}")
+    for h in list(logging.getLogger().handlers):
+        try:
+            h.close()
+        except Exception:       # noqa: BLE001
+            pass
+        logging.getLogger().removeHandler(h)
+    sys.stdout, sys.stderr = sys.__stdout__, sys.__stderr__
+    if err:
+        return None, err
+    try:
+        with open(out, "rb") as fh:
+            return ref.to_text(ref.bdecode(fh.read(), strict=False)), None
+    except BaseException as e:      # noqa: BLE001
+        return None, ("metafile-undecodable", f"{type(e).__name__}: {e}")
+
+
+def _c10_cli(acc, case):
+    """command line (create --meta-version 2|3) against the class-based creators of the interactive front end"""
+    with tempdir() as d:
+        name, tree, payload = _setup(d, case)
+        os.chdir(d)
+        for label, version, lib in (("v2", 2, "TorrentFileV2"), ("hybrid", 3, "TorrentFileHybrid")):
+            ma, ea = _cli_create(d, payload, version, case["pl"], case.get("progress", 0))
+            mb, eb = _create(d, payload, lib, case["pl"], case.get("progress", 0))
+            if ea or eb:
+                if (ea and ea[0]) != (eb and eb[0]):
+                    acc.fail(f"C10:cli:{label}:one-raises", case, f"command line: {ea and ea[1]}; {lib}: {eb and eb[1]}", "same outcome")
+                continue
+            ia, ib = ma.get("info") or {}, mb.get("info") or {}
+            if ia != ib:
+                keys = _diffkeys(ia, ib)
+                acc.fail(f"C10:cli:{label}:info-differs:{','.join(keys)}", case, f"command line vs {lib}: info keys {keys} differ", "identical info")
+            if ma.get("piece layers") != mb.get("piece layers"):
+                acc.fail(f"C10:cli:{label}:piece-layers-differ", case, f"command line vs {lib}", "identical piece layers")
+
+
 def _c10_case(acc, case):
     if case.get("kind") == "hashers":
         _c10_hashers(acc, case)
+    elif case.get("kind") == "cli":
+        _c10_cli(acc, case)
     else:
         _c10_creators(acc, case)
 
@@ -861,13 +914,28 @@ def h_c10(tier, seed, hints):
     acc = CappedAcc("C10", "pairs of written metafiles (TorrentAssembler('2') vs TorrentFileV2, TorrentAssembler('3') vs TorrentFileHybrid): decoded "
               "info dictionaries and piece layers must be identical; HasherV2 / HasherHybrid / FileHasher (with and without the hybrid flag) "
               "on the same file: root, piece layer, v1 pieces and padding description pairwise identical, yielded values = stored values; "
+              "the command line (create --meta-version 2|3) against TorrentFileV2 / TorrentFileHybrid on a sub-sample of the trees; "
               "distinct = creator cases (pl, sizes, shape, naming, progress) + hasher cases (pl, size, progress)",
               "creator pairs over the trees of C01; hashers over the size alphabet (quick, pl 16K/32K) and all k*B+-1, k<18, k*pl+{-1,0,1,B,B+1}, "
               "k<10, pl in {16K,32K,64K,128K} (thorough)")
     for i, case in enumerate(_hasher_cases(tier, seed)):
         _c10_case(acc, case)
         acc.case(_case_key(case), case if i % 29 == 3 else None)
-    for i, case in enumerate(_tree_cases("C10", tier, seed, hints)):
+    trees = _tree_cases("C10", tier, seed, hints)
+    for i, case in enumerate(trees):
+        _c10_case(acc, case)
+        acc.case(_case_key(case), case if i % 53 == 5 else None)
+    # the command line itself on a sub-sample (every 9th tree in quick, every 5th in thorough; all special trees)
+    quick_trees = trees if tier == "quick" else _tree_cases("C10", "quick", seed, hints)
+    sample = [c for i, c in enumerate(quick_trees) if i % 9 == 0 or c.get("extra")]
+    if tier != "quick":
+        sample += [c for i, c in enumerate(trees) if i % 5 == 0]
+    seen = set()
+    for i, case in enumerate(sample):
+        case = dict(case, kind="cli")
+        if _case_key(case) in seen:
+            continue
+        seen.add(_case_key(case))
         _c10_case(acc, case)
         acc.case(_case_key(case), case if i % 53 == 5 else None)
     return acc.result()
